@@ -150,6 +150,11 @@ inductive Res
   | error                         -- an exception escapes (or the fuel of the model ran out)
   deriving Repr, DecidableEq, Inhabited
 
+/-- index of the entry after the one `locate` found: `0 if i is None else i + 1` -/
+def nextIdx : Option Nat → Nat
+  | none => 0
+  | some i => i + 1
+
 /-- `__gap_add_vertex(v, support, vaddr, i)`: `vaddr` is in no stored block; `v` may run into the
     next one, then it is cut there and the instructions after the cut are added in turn. -/
 def gapAdd (rec : Graph → Block → Res) (g : Graph) (v : Block) (vaddr : Nat) (i : Option Nat) : Res :=
@@ -157,7 +162,7 @@ def gapAdd (rec : Graph → Block → Res) (g : Graph) (v : Block) (vaddr : Nat)
     match zoneWrite g.support vaddr v with
     | none => .error
     | some z => .ok { g with support := z } vaddr
-  match g.support[match i with | none => 0 | some i => i + 1]? with
+  match g.support[nextIdx i]? with
   | none => plain
   | some nextmo =>
     match address? nextmo.blk with
